@@ -38,22 +38,24 @@ Definition sp (n : nat) : list N := repeat 32%N n.
 Definition leaf_text (l : leaf) : list N :=
   match l with LScalar s => s | LEmptySeq => [91; 93]%N | LEmptyMap => [123; 125]%N end.
 
-(* `prev`: the token just before (None at the start of the document); `prev2`: the one before that.
-   An empty mapping that is the value of a key whose preceding sibling had a block value (its last
-   token lies deeper than a scalar value of that sibling would) goes to a line of its own. *)
-Fixpoint render_go (prev2 prev : option tok) (l : list tok) : list N :=
+(* `prev`: the token just before (None at the start of the document).  `blk` mirrors the serializer's
+   last_value_was_block: raised when a non-empty block collection has just ended (the previous leaf lies more
+   than one level deeper than the token that follows), lowered by every scalar, by an empty mapping, and by a
+   block collection that starts as the value of a key; an empty sequence leaves it alone.  An empty mapping
+   that is the value of a key while the flag is up goes to a line of its own. *)
+Fixpoint render_go (blk : bool) (prev : option tok) (l : list tok) : list N :=
   match l with
   | [] => []
   | t :: r =>
     let inline_after_dash := match prev with Some (KDash _) => true | _ => false end in
-    let after_block_sibling :=
-      match prev2, prev with
-      | Some (KLeaf c2 _), Some (KKey c _) => Nat.ltb (c + 2) c2
-      | _, _ => false
+    let blk1 :=
+      match prev, t with
+      | Some (KLeaf cp _), KKey ct _ | Some (KLeaf cp _), KDash ct => if Nat.ltb (ct + 2) cp then true else blk
+      | _, _ => blk
       end in
     let lead := if inline_after_dash then [] else
                   match prev, t with
-                  | Some (KKey _ _), KLeaf c LEmptyMap => if after_block_sibling then 10%N :: sp c else [32%N]
+                  | Some (KKey _ _), KLeaf c LEmptyMap => if blk1 then 10%N :: sp c else [32%N]
                   | Some (KKey _ _), KLeaf _ _ => [32%N]                         (* "k: v" *)
                   | Some (KKey _ _), _ => 10%N :: sp (tok_col t)                 (* block value on the next line *)
                   | _, _ => sp (tok_col t)
@@ -63,9 +65,16 @@ Fixpoint render_go (prev2 prev : option tok) (l : list tok) : list N :=
                 | KKey _ k => k ++ [58%N]
                 | KLeaf _ lf => leaf_text lf ++ [10%N]
                 end in
-    lead ++ body ++ render_go prev (Some t) r
+    let blk2 :=
+      match t with
+      | KLeaf _ (LScalar _) | KLeaf _ LEmptyMap => false
+      | KLeaf _ LEmptySeq => blk1
+      | KKey _ _ => match prev with Some (KKey _ _) | Some (KDash _) => false | _ => blk1 end   (* a key written inline after a dash lowers it too *)
+      | KDash _ => match prev with Some (KKey _ _) => false | _ => blk1 end
+      end in
+    lead ++ body ++ render_go blk2 (Some t) r
   end.
-Definition render (l : list tok) : list N := render_go None None l.
+Definition render (l : list tok) : list N := render_go false None l.
 Definition emit (t : tree) : list N := render (toks 0 t).
 
 (* ---- reading a token stream back by columns ---- *)
